@@ -33,12 +33,33 @@ EXPLANATION += (' R-C04-7: the junction of the two passes is handled by _new_tur
 EXPLANATION += (' R-C04-9 (shared with R-C05-14): no HCM decision is reduced over the assessment points with all()/any().')
 EXPLANATION += (' R-C04-8: the HCM case decisions use no relative tolerance (shared with R-C05-10), and nothing cached on the FKM-nonlinear recorder or detector survives a later recording call (memo rule: hand-written `if self._x is None` caches and caching decorators).')
 EXPLANATION += (' R-C04-10 (shared with R-C05-17): the representative assessment point of a multi-point sample is the first stored row everywhere; a first element taken after sort_index / sort_values / sample / reindex is a violation. R-C04-1 also rejects np.insert / np.append without a float conversion for the zero prefix (they keep a narrow or unsigned element type of the samples).')
+EXPLANATION += (' R-C04-11 (shared state-family rules, sa/statefam.py): in FKMNonlinearDetector.process no explicit raise / assert is reachable after a store to a detector attribute - a refused call must not advance the pass number.')
 ASSUMPTIONS = ["the caller replays in pass 2 only loads of pass 1 (a fact about the caller's data)"]
 
 
 def run(ctx):
-    for r in (_r1, _r2, _r3, _r5, _r6, _r7, _r8, _r9, _r10):
+    for r in (_r1, _r2, _r3, _r5, _r6, _r7, _r8, _r9, _r10, _r11):
         ctx.attempt(r)
+
+
+def _r11(ctx):
+    """R-C04-11 (state families, sa/statefam.py): FKMNonlinearDetector.process rejects an input (explicit raise / assert) BEFORE it
+    changes any detector state.  The pass number is detector state: a call that is refused after `_run_index += 1` makes the
+    corrected call the third 'pass', and nothing is recorded with run_index == 2."""
+    from .. import statefam
+    from ..inline import inlined
+    prog = ctx.prog
+    statefam.selftest()
+    ctx.rule("R-C04-11", floor=1, what="process() of the FKM nonlinear detector rejects input before it changes detector state")
+    fi = inlined(prog, prog.func(D + "process"))
+    hits = statefam.state_before_raise(prog, fi)
+    for r, st, attr in hits:
+        ctx.violated(fi, r, "process() can reach `%s` after it has already changed self.%s (`%s`): the rejected call leaves the "
+                     "detector in another state than it found it (the pass number counts the refused call)"
+                     % (norm_text(r)[:70], attr, norm_text(st)[:50]), text="rejection after a change of self.%s" % attr)
+    if not hits:
+        n = len([x for x in walk_function(fi.node) if isinstance(x, (ast.Raise, ast.Assert))])
+        ctx.holds(fi, fi.node, "%d explicit rejection(s), none after a store to detector state" % n)
 
 
 SORTS = ("sort_index", "sort_values", "sample", "reindex", "nsmallest", "nlargest", "sortlevel")
